@@ -69,7 +69,7 @@ static long lclock = 1;
 static long cs_begin[VRT_MAXT];	/* begin time of the open section of each runtime thread, 0: none */
 static int in_op[VRT_MAXT], in_crcu[VRT_MAXT], opstep[VRT_MAXT], park_req[VRT_MAXT], parked[VRT_MAXT];
 static void (*on_park[VRT_MAXT])(void);
-static int solo_tid, worker_tid[MAXT + 1], worker_done[MAXT + 1];
+static int solo_tid = -1, worker_tid[MAXT + 1], worker_done[MAXT + 1];
 static long pending_cbs;
 static int dummies_in_queue;
 static struct call_rcu_data *crdp;
@@ -211,7 +211,7 @@ static void lfq_point(void)
 			if (on_park[me])
 				on_park[me]();
 			vrt_freeze(me, 1);
-		} else if (park_pct && !solo_tid && vrt_rand() % 100 < (unsigned)park_pct) {
+		} else if (park_pct && solo_tid < 0 && vrt_rand() % 100 < (unsigned)park_pct) {
 			/* suspended between two primitives of an operation for a long time */
 			vrt_sleep(20 + vrt_rand() % 400);
 		}
@@ -245,7 +245,7 @@ static void hist_add(int kind, int val, long inv, long ret)
 static void solo_begin(int enq)
 {
 	int i, me = vrt_self();
-	if (!solo_pct || solo_tid || vrt_rand() % 100 >= (unsigned)solo_pct)
+	if (!solo_pct || solo_tid >= 0 || vrt_rand() % 100 >= (unsigned)solo_pct)
 		return;
 	solo_tid = me;
 	/* enqueue: (LD MB CAS CAS) at most twice.  dequeue: 3 per leading dummy, then at most 2 + 8 + 2 */
@@ -265,7 +265,7 @@ static void solo_end(void)
 	for (i = 1; i <= nthreads; i++)
 		if (worker_tid[i] && worker_tid[i] != me)
 			vrt_freeze(worker_tid[i], 0);
-	solo_tid = 0;
+	solo_tid = -1;
 }
 
 static void do_enq(int id)
@@ -393,8 +393,14 @@ static void *worker(void *arg)
 }
 
 /* ---- directed schedules: the tail still points to a node the head has passed ---------------------- */
-static int tidE, tidD, tidF;
-static unsigned long ctr_at_stage1;
+static int tidE, tidD, tidF, first_dummy;
+static unsigned long ctr0;
+
+static void E_parked(void)
+{
+	/* no grace period is in flight here: any later change of rcu_gp.ctr is the flip of the reclaiming one */
+	ctr0 = rcu_gp.ctr;
+}
 
 static void wait_until(volatile int *flag, int v)
 {
@@ -410,6 +416,7 @@ static void *uafE(void *arg)
 	set_thread_call_rcu_data(crdp);
 	do_lock();
 	park_req[vrt_self()] = 4;	/* LD tail, MB, CAS tail->next done; parked before the CAS on q->tail */
+	on_park[vrt_self()] = E_parked;
 	do_enq(id);
 	do_unlock();
 	rcu_unregister_thread();
@@ -433,7 +440,7 @@ static void *uafF(void *arg)
 	wait_until(&stage, 1);
 	/* begin the section only after the grace period of the reclaimer has flipped the phase:
 	 * this section is not a pre-existing reader of that grace period */
-	while (*(volatile unsigned long *)&rcu_gp.ctr == ctr_at_stage1)
+	while (*(volatile unsigned long *)&rcu_gp.ctr == ctr0)
 		vrt_sleep(1);
 	do_lock();
 	park_req[vrt_self()] = 3;	/* LD q->tail, MB done; parked before the CAS on tail->next */
@@ -457,7 +464,6 @@ static void *uafD_node(void *arg)
 	do_lock();
 	id = do_deq();
 	do_unlock();
-	ctr_at_stage1 = rcu_gp.ctr;
 	stage = 1;
 	do_sync();
 	if (id >= 0) {
@@ -473,7 +479,6 @@ static void *uafD_node(void *arg)
 
 static void D_parked(void)
 {
-	ctr_at_stage1 = rcu_gp.ctr;
 	stage = 1;
 }
 
@@ -491,7 +496,7 @@ static void *uafD_dummy(void *arg)
 	on_park[vrt_self()] = D_parked;
 	do_deq();
 	do_unlock();
-	while (dummy_state[0] != 3)
+	while (dummy_state[first_dummy] != 3)
 		vrt_sleep(1);
 	vrt_freeze(tidF, 0);
 	rcu_unregister_thread();
@@ -636,6 +641,7 @@ int main(int argc, char **argv)
 	/* init / destroy of an empty queue, then the queue used by the run */
 	do_init();
 	expect_destroy(0);
+	first_dummy = ndummies;
 	do_init();
 
 	if (mode == 0) {
@@ -644,8 +650,13 @@ int main(int argc, char **argv)
 	} else {
 		park_pct = 0; solo_pct = 0;
 		if (mode == 1) {
-			/* queue [dummy0', node0], tail = node0 */
-			do_lock(); do_enq(pool[--npool]); do_unlock();
+			/* queue [nodeB] with head = tail = nodeB, the initial dummy already reclaimed */
+			int a;
+			do_lock(); do_enq(pool[--npool]); do_enq(pool[--npool]); a = do_deq(); do_unlock();
+			while (pending_cbs > 0)
+				vrt_sleep(10);
+			do_sync();
+			if (a >= 0) { node_state[a] = 0; vrt_log("RECLAIM node%d reuse", a); pool[npool++] = a; }
 		}
 		nthreads = 3;
 		tids[1] = vrt_spawn("E", uafE, (void *)(long)pool[--npool]);
